@@ -630,6 +630,10 @@ func (g *c19tgen) structType(depth int) *pty {
 			for used[tg.number] {
 				tg.number++
 			}
+			// the struct codec keeps field numbers in 16 bits (recorded under C03): stay below
+			for tg.number > 65535 || used[tg.number] {
+				tg.number = 60000 + rndn(5000)
+			}
 			used[tg.number] = true
 			base := ft
 			rep := false
